@@ -3,11 +3,12 @@
    hand-written mock engine model used by C06 and C07 (find_exp, have_always, have_never,
    remove_first, after_use) to the code: the queue is a CgreenVector (list semantics, justified by
    Lemmas_Vector) of pointers to expectation records in a heap.  Statements only; proofs are in
-   Lemmas_Code_Mocks.v, Lemmas_Code_Mocks2.v and Lemmas_Code_Mocks3.v.  (expect_(), always_expect_(),
-   never_expect_(), tally_mocks() and trigger_unfulfilled_expectations() are translated and compared with the
-   model on enumerated queues by the extracted interpreter, not proved; mock_() is not translated.) *)
+   Lemmas_Code_Mocks.v .. Lemmas_Code_Mocks4.v.  (expect_(), always_expect_(), never_expect_() and tally_mocks()
+   are translated and compared with the model on enumerated queues by the extracted interpreter, not proved;
+   trigger_unfulfilled_expectations() is proved for entries without a times() clause and compared on the others;
+   mock_() is not translated.) *)
 From Coq Require Import List ZArith String Bool.
-From CgreenVerif Require Import CLite Mocks CodeCheck Lemmas_Code_Mocks Lemmas_Code_Mocks2 Lemmas_Code_Mocks3.
+From CgreenVerif Require Import CLite Mocks CodeCheck Lemmas_Code_Mocks Lemmas_Code_Mocks2 Lemmas_Code_Mocks3 Lemmas_Code_Mocks4.
 From CgreenVerif.Gen Require Import Code_mocks.
 Import ListNotations.
 Local Open Scope string_scope. Local Open Scope list_scope. Local Open Scope Z_scope.
@@ -112,6 +113,29 @@ Example Code_remove_never_example :
                      (mw 254886233 [mkexp 0 1 (-254886233) [] 0 0; mkexp 0 2 (-254886233) [] 0 0; mkexp 1 3 1 [] 0 0] [] []) = Fine (VInt 0, w') /\
              queue_z w' = model_queue_z [mkexp 0 2 (-254886233) [] 0 0; mkexp 1 3 1 [] 0 0].
 Proof. eexists. split; [vm_compute; reflexivity|vm_compute; reflexivity]. Qed.
+
+(* C07, the end-of-test tally: trigger_unfulfilled_expectations(queue, reporter) tells the reporter exactly what
+   Mocks.mstep's MTally says, entry by entry in queue order - nothing for an always-expectation, one pass
+   ("was never called") for a never-expectation no call matched and nothing for one that was called (mock_()
+   reported each offending call), one failure ("Expected call was not made") for every other entry still in
+   the queue - with the declaration's line and the function's name; for every queue whose entries carry no
+   times() clause (their constraint vector is NULL in this world; entries with times() are compared with the
+   model by the extracted interpreter).  The queue and the records are unchanged, the run is Fine. *)
+Theorem Code_trigger_unfulfilled_is_the_models_tally :
+  forall q unl mode succ x tl tr n,
+    unl_ok unl -> (List.length q + 1 < n)%nat -> Z.of_nat (List.length q) < 2147483647 -> Forall no_times q ->
+    run_fun prog_mocks n "trigger_unfulfilled_expectations" [VPtr 0 0; rp q] (tw_ unl q x tl tr) =
+    Fine (VInt 0, tw_ unl q x tl (rev (map (ev_of_res q) (snd (fst (mstep unl (mkms q mode succ) MTally)))) ++ tr)).
+Proof. exact trigger_unfulfilled_is_the_models_tally. Qed.
+Print Assumptions Code_trigger_unfulfilled_is_the_models_tally.
+
+(* non-vacuity: an always-, a called never-, an uncalled never- and a plain expectation *)
+Example Code_trigger_unfulfilled_example :
+  exists tr', run_fun prog_mocks 12 "trigger_unfulfilled_expectations" [VPtr 0 0; rp [mkexp 0 1 254886233 [] 0 0; mkexp 1 2 (-254886233) [] 0 1; mkexp 2 3 (-254886233) [] 0 0; mkexp 3 4 1 [] 0 0]]
+                      (tw_ 254886233 [mkexp 0 1 254886233 [] 0 0; mkexp 1 2 (-254886233) [] 0 1; mkexp 2 3 (-254886233) [] 0 0; mkexp 3 4 1 [] 0 0] (OVec []) [] []) =
+              Fine (VInt 0, tw_ 254886233 [mkexp 0 1 254886233 [] 0 0; mkexp 1 2 (-254886233) [] 0 1; mkexp 2 3 (-254886233) [] 0 0; mkexp 3 4 1 [] 0 0] (OVec []) [] tr') /\
+              map (fun ev => match snd ev with _ :: _ :: VInt l :: VInt r :: _ => (l, r) | _ => (0, 0) end) tr' = [(4, 0); (3, 1)].
+Proof. eexists. split; vm_compute; reflexivity. Qed.
 
 (* non-vacuity: a concrete queue; f1's first entry is the second of the queue *)
 Example Code_find_expectation_example :
